@@ -143,6 +143,22 @@ func strList(xs []string) string {
 	return lib.List(out)
 }
 
+// a path is written as P [components] (P = strings.Join(_, "/") in Model/C22.v), so that only names are literals
+func path(x string) string {
+	if !strings.Contains(x, "/") {
+		return str(x)
+	}
+	return "(P " + strList(strings.Split(x, "/")) + ")"
+}
+
+func pathList(xs []string) string {
+	out := make([]string, len(xs))
+	for i, x := range xs {
+		out[i] = path(x)
+	}
+	return lib.List(out)
+}
+
 func header() string {
 	var b strings.Builder
 	b.WriteString("From PlzV Require Import Model.C22.\nDefinition F := File FReg.\nDefinition L := File FLinkDir.\n")
@@ -527,8 +543,8 @@ func pickSome(r *lib.Rng, pool []string, maxN int) []string {
 	return out
 }
 
-func genInput(r *lib.Rng, hazards bool) *input {
-	in := &input{BuildFileNames: lib.Pick(r, buildNameSets), Tree: genTree(r, r.Range(2, 4), hazards)}
+func genInput(r *lib.Rng, hazards bool, maxDepth int) *input {
+	in := &input{BuildFileNames: lib.Pick(r, buildNameSets), Tree: genTree(r, r.Range(2, maxDepth), hazards)}
 	in.Blacklist = pickSome(r, blacklistPool, 3)
 	if r.Chance(1, 2) {
 		in.Experimental = pickSome(r, experimentalPool, 2)
@@ -677,7 +693,7 @@ func one(c *lib.Ctx, in *input, model bool) {
 	js := jsonOf(in, obs)
 	if model {
 		c.Case(lib.App("CFind", strList(in.BuildFileNames), strList(in.Blacklist), strList(in.Experimental),
-			str(in.Root), str(in.Prefix), coqNode(sub), strList(obs.Files), lib.Opt(in.Prefix == "", strList(obs.Labels))),
+			path(in.Root), str(in.Prefix), coqNode(sub), pathList(obs.Files), lib.Opt(in.Prefix == "", pathList(obs.Labels))),
 			js, keyOf(in), nontrivial(in))
 	} else {
 		c.Eval(js, keyOf(in), nontrivial(in))
@@ -750,13 +766,13 @@ func main() {
 		n := c.Scale(360, 9000)
 		for i := 0; i < n; i++ {
 			r := c.Rng.Fork()
-			one(c, genInput(r, r.Chance(2, 3)), true)
+			one(c, genInput(r, r.Chance(2, 3), 3), true)
 		}
 		// 3. oracle only
 		n = c.Scale(2500, 40000)
 		for i := 0; i < n; i++ {
 			r := c.Rng.Fork()
-			one(c, genInput(r, r.Chance(2, 3)), false)
+			one(c, genInput(r, r.Chance(2, 3), 4), false)
 		}
 	})
 }
